@@ -70,6 +70,11 @@ impl DynamicConstraintsEncoder {
     }
 
     fn new_solver_var(&mut self, var_type: SolverVarType) -> usize {
+        // variables may have been declared in the solver by other components (e.g. selectors); never reuse them
+        let n_solver_vars = self.solver.borrow().n_vars();
+        while self.solver_vars.len() <= n_solver_vars {
+            self.solver_vars.push(SolverVarType::Ignored);
+        }
         self.solver_vars.push(var_type);
         self.solver_vars.len() - 1
     }
